@@ -288,6 +288,12 @@ func (v verifier) doVerifyVP(vcVerifier Verifier, presentation vc.VerifiablePres
 				// self-attested VC: https://www.w3.org/TR/vc-data-model-2.0/#presentations-including-holder-claims
 				// These don't need a proof, since they're already protected by the VP's proof.
 				checkSignature = len(current.Proof) > 0
+				if !checkSignature && presentation.Format() == vc.JSONLDPresentationProofFormat && current.Format() == vc.JSONLDCredentialProofFormat {
+					// Only protected by the VP's JSON-LD proof, which does not cover members that are not defined by the JSON-LD context.
+					if err = v.signatureVerifier.allFieldsDefined(current); err != nil {
+						return nil, newVerificationError("invalid VC (id=%s): %w", current.ID, err)
+					}
+				}
 			}
 			err = vcVerifier.Verify(current, allowUntrustedVCs, checkSignature, validAt)
 			if err != nil {
